@@ -81,6 +81,14 @@ type c14Case struct {
 	Impostor string `json:"impostor,omitempty"`
 	// SingleContext: the document's @context is one string, not the list
 	SingleContext bool `json:"single_context,omitempty"`
+	// Alias: the document gives the value's vocabulary an alias, in the form
+	// the decoder reads ({vocabulary: alias} under the vocabulary's own
+	// URI) - "only" that entry next to the other vocabularies, "after-string"
+	// the vocabulary once as a string and then with the alias. Prefixed says
+	// whether the type is written alias:Name (the vocabulary's name for it
+	// in that document) or bare (then no vocabulary of the document defines it)
+	Alias    string `json:"alias,omitempty"`
+	Prefixed bool   `json:"prefixed,omitempty"`
 	// Again: the resolver is used a second time, for a value of this type
 	Again string `json:"again,omitempty"`
 }
@@ -137,7 +145,7 @@ func c14Exec(r *verdict.Run, cs c14Case) {
 	own := cs.Value
 	unknownType := O.Types[own] == nil
 	want := -1
-	if !unknownType && cs.Impostor == "" {
+	if !unknownType && cs.Impostor == "" && (cs.Alias == "" || cs.Prefixed) {
 		for i, k := range cs.Callbacks {
 			if k == own {
 				want = i
@@ -146,7 +154,11 @@ func c14Exec(r *verdict.Run, cs c14Case) {
 		}
 	}
 	viol := func(rule, msg string) {
-		r.Violate(verdict.Sig{Rule: "C14." + rule, Site: "streams." + cs.Resolver, Feature: cs.Resolver + ":" + rule}, cs,
+		feature := cs.Resolver + ":" + rule
+		if cs.Alias != "" {
+			feature += " (document gives the vocabulary an alias: " + cs.Alias + ")"
+		}
+		r.Violate(verdict.Sig{Rule: "C14." + rule, Site: "streams." + cs.Resolver, Feature: feature}, cs,
 			map[string]interface{}{"message": msg, "calls": log, "want_index": want})
 	}
 	var err error
@@ -168,6 +180,23 @@ func c14Exec(r *verdict.Run, cs c14Case) {
 		}
 		if cs.SingleContext && !unknownType {
 			m["@context"] = O.Types[own].VocabURI
+		}
+		if cs.Alias != "" && !unknownType {
+			uri := O.Types[own].VocabURI
+			var ctx []interface{}
+			for _, c := range allContexts() {
+				if c != uri {
+					ctx = append(ctx, c)
+				}
+			}
+			if cs.Alias == "after-string" {
+				ctx = append(ctx, uri)
+			}
+			ctx = append(ctx, map[string]interface{}{uri: "x"})
+			m = map[string]interface{}{"@context": ctx, "type": O.Types[own].Name}
+			if cs.Prefixed {
+				m["type"] = "x:" + O.Types[own].Name
+			}
 		}
 		err = res.Resolve(bg, m)
 		if cs.Again != "" {
@@ -419,6 +448,10 @@ func runC14(id string) int {
 		c14Exec(r, c14Case{Resolver: "JSONResolver", Value: k, Callbacks: []string{k}, Again: other})
 		if O.Types[k].VocabURI == "https://www.w3.org/ns/activitystreams" {
 			c14Exec(r, c14Case{Resolver: "JSONResolver", Value: k, Callbacks: []string{other, k}, SingleContext: true})
+		}
+		for _, al := range []string{"only", "after-string"} {
+			c14Exec(r, c14Case{Resolver: "JSONResolver", Value: k, Callbacks: []string{other, k}, Alias: al, Prefixed: true})
+			c14Exec(r, c14Case{Resolver: "JSONResolver", Value: k, Callbacks: []string{other, k}, Alias: al})
 		}
 		name := O.Types[k].Name
 		for _, tf := range []interface{}{[]interface{}{name}, []interface{}{name, "Unknown2"}, []interface{}{"Unknown1", "Unknown2", name}, []interface{}{7, nil, name}} {
